@@ -314,6 +314,11 @@ func (s supplySite) translate(e *GuardEngine, cand Poly) (Poly, bool) {
 			}
 			w, t, ok := renderArg(pc, arg)
 			if !ok {
+				// a slice the caller made itself (no name of its own): its length is still known there
+				if _, isSl := arg.Type().Underlying().(*types.Slice); isSl && sym == "len("+tok+")" {
+					whole[sym] = pc.lenOf(arg)
+					continue
+				}
 				return nil, false
 			}
 			if w != nil {
